@@ -9,7 +9,7 @@ from wire import hx
 
 KIND = "board"
 SPECS = ["C18"]
-THEOREMS = ["C18.run_spec", "C18.run_monitor", "C18.coopB_sound", "C18.monitorOk_unfold", "C18.bringup_final", "C18.coop_success", "C18.coop_spec", "C18.model_verdict",
+THEOREMS = ["C18.run_spec", "C18.run_monitor", "C18.coopB_sound", "C18.monitorOk_unfold", "C18.bringup_final", "C18.coop_success", "C18.coop_spec", "C18.model_verdict", "C18.model_deadline_linux", "C18.model_deadline_uboot",
             "C18.C18_unfold", "C18.accepted_start", "C18.deadline_linux", "C18.deadline_uboot",
             "C18.timeout_only_when_configured", "C18.ok_only_at_end", "C18.credentials", "C18.password_skipped",
             "C18.hitOf_sound", "C18.bootlogs", "C18.log_grows", "C18.f10_asIs_rejected",
@@ -34,7 +34,8 @@ ASSUMPTIONS = ["virtual time: tbot is infinitely fast, the transport honours its
                "user name and password contain no byte of the write black-list in force and fit one send slice",
                "the bring-up is observed up to login complete (machines composed with RawShell); the shell hand-shake "
                "after it has no deadline in tbot and is the subject of C01",
-               "console output contains no terminal-control sequence other than those `Log.normalise` models"]
+               "the bootlog is compared as `EventIO` stores it: per delivered fragment, UTF-8 decoding with replacement, "
+               "the seven terminal-control sequences deleted and CR/LF pairs normalised (`Log.normalise`, C17)"]
 
 
 def gen_case(rng, params):
